@@ -453,6 +453,7 @@ func specIsRejectErr(err error) bool { _, ok := err.(*RejectError); return ok }
 //@ cover [refused]  result1 == ErrNotSelectedState && zzCalls("hsms.(transport).Write") == 0
 //@ cover [rejected] specIsRejectErr(result1) && zzCalls("hsms.(*ConnectionMetrics).incDataMsgInflight") == 1
 //@ cover [failed]   zzCalls("hsms.(*ConnectionMetrics).incDataMsgErr") == 1
+//@ ensures [consult] specIsData(msg) && zzRet[*epoch]("atomic.Load:cur") != nil && result1 != ErrNotSelectedState ==> zzCalls("IsSelected:true") >= 1
 
 //@ func (*connection).sendNoReply
 //@ nosafety nil-deref nil-iface
@@ -463,6 +464,7 @@ func specIsRejectErr(err error) bool { _, ok := err.(*RejectError); return ok }
 //@ ensures [once]  zzCalls("hsms.(transport).Write") <= 1
 //@ ensures [notopen] zzRet[*epoch]("atomic.Load:cur") == nil ==> result == ErrNotOpen && zzCalls("hsms.(transport).Write") == 0 && zzCalls("hsms.(*ConnectionMetrics).incDataMsgDropNotSelected") == 0
 //@ ensures [ctl]   !specIsData(msg) ==> zzCalls("hsms.(*ConnectionMetrics).incDataMsgSend") == 0 && zzCalls("hsms.(*ConnectionMetrics).incDataMsgErr") == 0 && zzCalls("hsms.(*ConnectionMetrics).incDataMsgDropNotSelected") == 0
+//@ ensures [consult] specIsData(msg) && zzRet[*epoch]("atomic.Load:cur") != nil && result != ErrNotSelectedState ==> zzCalls("IsSelected:true") >= 1
 
 //@ func (*connection).SendAsync
 //@ nosafety nil-deref nil-iface
@@ -473,6 +475,7 @@ func specIsRejectErr(err error) bool { _, ok := err.(*RejectError); return ok }
 //@ ensures [ctl]   !specIsData(msg) ==> zzCalls("hsms.(*ConnectionMetrics).incDataMsgDropNotSelected") == 0
 //@ ensures [notopen] zzRet[*epoch]("atomic.Load:cur") == nil ==> result == ErrNotOpen && zzCalls("chan.send") == 0 && zzCalls("hsms.(*ConnectionMetrics).incDataMsgDropNotSelected") == 0
 //@ ensures [queue] zzCalls("chan.send") <= 1 && (zzCalls("chan.send") == 1 ==> result == nil)
+//@ ensures [consult] specIsData(msg) && zzRet[*epoch]("atomic.Load:cur") != nil && result != ErrNotSelectedState ==> zzCalls("IsSelected:true") >= 1
 
 // ---- session entry points: every data send is built by NewDataMessage (so an invalid combination or an item that
 //      carries a deferred error never reaches the transport runtime) and makes at most one runtime call ----
